@@ -120,6 +120,8 @@ def gen_op(rng, w):
             gl.insert(rng.randint(0, len(gl)), failing)
         op["genes"] = gl
         op["out"] = rng.choice(OUT_KINDS)
+        if rng.random() < 0.3:
+            op["mixed_path"] = True
     elif kind == "query":
         op["gene"] = rng.choice(genes)
         op["q"] = rng.choice(["", "1", "2", "1.001", "2.001"])
@@ -217,7 +219,8 @@ def ref_ops_for(op, w):
     out = [op]
     if op["op"] == "multi":
         for g in op["genes"]:
-            out.append({"op": "genotype", "sample": op["sample"], "gene": g, "out": op["out"]})
+            out.append({"op": "genotype", "sample": op["sample"], "gene": g, "out": op["out"],
+                        **({"mixed_path": True} if op.get("mixed_path") else {})})
     if op["op"] == "minor_order":
         out = [{"op": "minor_order", "sample": op["sample"], "gene": op["gene"],
                 "perm_seed": 0, "mode": "natural"}]
@@ -723,10 +726,22 @@ def _op(ctx, op):
         prof, cnr = _profile_args(seg)
         if op.get("exome"):
             prof, cnr = op["exome"], None
+        def dbpath(g_):
+            p_ = os.path.join(wd, man["db"][g_])
+            if op.get("mixed_path"):
+                # the same database reached through a directory whose name has upper-case letters
+                d_ = os.path.join(rd, "Db-Mixed")
+                os.makedirs(d_, exist_ok=True)
+                q_ = os.path.join(d_, os.path.basename(p_))
+                if not os.path.lexists(q_):
+                    os.symlink(p_, q_)
+                return q_
+            return p_
+
         if kind == "multi":
-            db = ",".join(os.path.join(wd, man["db"][g]) for g in op["genes"])
+            db = ",".join(dbpath(g) for g in op["genes"])
         else:
-            db = os.path.join(wd, man["db"][op["gene"]])
+            db = dbpath(op["gene"])
         outp = None
         if op["out"] != "none":
             ctx.nout = getattr(ctx, "nout", 0) + 1
